@@ -770,7 +770,7 @@ func c11Discriminators(p *load.Program, r *core.Report) {
 // c11CacheDirection: E6
 func c11CacheDirection(p *load.Program, r *core.Report) {
 	rule := "C11.E6 cache-direction"
-	r.Floor(rule, 8)
+	r.Floor(rule, 12)
 	// in net/handshake: calls makeEncodeXCache(arg) must take a field of the LOCAL introduce message
 	// and makeDecodeXCache(arg) a field of the PEER's introduce; local = the MessageIntroduce this
 	// function builds and sends, peer = the one it decodes (result of a type assertion on a decoded message).
